@@ -334,7 +334,7 @@ func ruleFlushOrdering(r *Run, rule string, k *storeKind) {
 		// the loop ranges over the frozen snapshot
 		okSnap := false
 		allInstrs(fa, func(in ssa.Instruction) {
-			if ia, ok := in.(*ssa.IndexAddr); ok && isRangeIndex(ia.Index) && strings.Contains(c.S(ia.X), "listFrozen(") {
+			if ia, ok := in.(*ssa.IndexAddr); ok && c.idxOf(ia.X, ia.Index) == "range" && strings.Contains(c.S(ia.X), "listFrozen(") {
 				okSnap = true
 			}
 		})
